@@ -106,6 +106,11 @@ func (dmx *Demuxer) NextPacket() (p *Packet, err error) {
 		// Only keep a packet buffer that was created successfully, otherwise the next call has to try again
 		var pb *packetBuffer
 		if pb, err = newPacketBuffer(dmx.r, dmx.optPacketSize, dmx.optPacketSkipper); err != nil {
+			// The input has ended before a packet size could be detected
+			if errors.Is(err, io.EOF) {
+				err = ErrNoMorePackets
+				return
+			}
 			err = fmt.Errorf("astits: creating packet buffer failed: %w", err)
 			return
 		}
